@@ -128,8 +128,15 @@ func genPlanC01(t *rapid.T) Plan {
 				op.Filters = append(op.Filters, genFilter(t))
 			}
 			p.Ops = append(p.Ops, op)
-		case k < 15:
+		case k < 14:
 			p.Ops = append(p.Ops, genPub(t, &p, false))
+		case k == 14:
+			op := Op{K: "burst", C: rapid.IntRange(0, p.NClients-1).Draw(t, "bc"), Topic: genName(t), PQ: byte(rapid.IntRange(0, 1).Draw(t, "bq"))}
+			limit := p.BufSize - 8192 - 64
+			for j, n := 0, rapid.IntRange(2, 12).Draw(t, "nburst"); j < n; j++ {
+				op.Burst = append(op.Burst, rapid.SampledFrom([]int{8, 40, 900, 4000, limit, limit, limit - 3000}).Draw(t, "bsize"))
+			}
+			p.Ops = append(p.Ops, op)
 		case k == 15:
 			p.Ops = append(p.Ops, Op{K: rapid.SampledFrom([]string{"disconnect", "close"}).Draw(t, "endkind"), C: rapid.IntRange(0, p.NClients-1).Draw(t, "ec")})
 		case k == 16:
@@ -276,26 +283,41 @@ func genPlanC08(t *rapid.T) Plan {
 }
 
 // genPlanC10: clean and persistent sessions over several client identifiers.
+// Clients have a tendency (mostly persistent / mostly clean) so that chains of
+// resumed connections of one identifier are frequent.
 func genPlanC10(t *rapid.T) Plan {
 	p := Plan{BufSize: 16384, NClients: rapid.IntRange(2, 4).Draw(t, "nclients")}
-	nops := rapid.IntRange(8, 36).Draw(t, "nops")
+	nops := rapid.IntRange(8, 40).Draw(t, "nops")
 	filters := []string{"a", "b", "a/b", "a/#", "+", "+/b", "#", "cc"}
+	persist := make([]bool, p.NClients)
+	for i := range persist {
+		persist[i] = rapid.IntRange(0, 9).Draw(t, "persistent") < 7
+	}
+	connect := func(c int) Op {
+		clean := !persist[c]
+		if rapid.IntRange(0, 6).Draw(t, "flip") == 0 {
+			clean = !clean
+		}
+		return Op{K: "connect", C: c, Clean: clean}
+	}
 	for i := 0; i < nops; i++ {
 		c := rapid.IntRange(0, p.NClients-1).Draw(t, "c")
 		switch k := rapid.IntRange(0, 19).Draw(t, "opkind"); {
-		case k < 5:
-			p.Ops = append(p.Ops, Op{K: "connect", C: c, Clean: rapid.IntRange(0, 2).Draw(t, "clean") == 0})
-		case k < 9:
+		case k < 5: // reconnect: end the connection in some way, connect again
+			p.Ops = append(p.Ops, Op{K: rapid.SampledFrom([]string{"disconnect", "close", "close", "garbage"}).Draw(t, "end"), C: c}, connect(c))
+		case k == 5:
+			p.Ops = append(p.Ops, connect(c))
+		case k < 10:
 			op := Op{K: "sub", C: c}
 			for j, n := 0, rapid.IntRange(1, 2).Draw(t, "nf"); j < n; j++ {
 				op.Filters = append(op.Filters, rapid.SampledFrom(filters).Draw(t, "f"))
 				op.QoS = append(op.QoS, byte(rapid.IntRange(0, 2).Draw(t, "q")))
 			}
 			p.Ops = append(p.Ops, op)
-		case k < 11:
+		case k < 12:
 			p.Ops = append(p.Ops, Op{K: "unsub", C: c, Filters: []string{rapid.SampledFrom(filters).Draw(t, "uf")}})
-		case k < 14:
-			p.Ops = append(p.Ops, Op{K: rapid.SampledFrom([]string{"disconnect", "close", "close", "garbage"}).Draw(t, "end"), C: c})
+		case k == 12:
+			p.Ops = append(p.Ops, Op{K: rapid.SampledFrom([]string{"disconnect", "close"}).Draw(t, "end"), C: c})
 		default:
 			op := Op{K: "pub", C: c, Topic: rapid.SampledFrom([]string{"a", "b", "a/b", "cc", "a/b/cc", "b/b"}).Draw(t, "pt"), PQ: byte(rapid.IntRange(0, 2).Draw(t, "pq")), Size: rapid.IntRange(0, 40).Draw(t, "ps")}
 			p.Ops = append(p.Ops, op)
@@ -305,40 +327,58 @@ func genPlanC10(t *rapid.T) Plan {
 }
 
 // genPlanC09: wills over connection generations of a few client identifiers;
-// client 0 is the witness subscribed to everything at QoS 2.
+// client 0 is the witness subscribed to everything at QoS 2. Each client has
+// two will variants, so byte-identical reconnects are frequent.
 func genPlanC09(t *rapid.T) Plan {
 	p := Plan{BufSize: rapid.SampledFrom([]int{16384, 262144}).Draw(t, "bufsize"), NClients: rapid.IntRange(2, 4).Draw(t, "nclients")}
-	p.Ops = append(p.Ops, Op{K: "connect", C: 0, Clean: true}, Op{K: "sub", C: 0, Filters: []string{"#"}, QoS: []byte{2}})
+	p.Ops = append(p.Ops, Op{K: "connect", C: 0, Clean: true}, Op{K: "sub", C: 0, Filters: []string{"#"}, QoS: []byte{byte(rapid.SampledFrom([]int{2, 2, 1, 0}).Draw(t, "witq"))}})
 	if rapid.Bool().Draw(t, "second-witness") {
 		p.Ops = append(p.Ops, Op{K: "sub", C: 0, Filters: []string{"w/+"}, QoS: []byte{byte(rapid.IntRange(0, 2).Draw(t, "wq"))}})
 	}
 	limit := p.BufSize - 8192
+	wills := make([][2]*Will, p.NClients)
+	for c := 1; c < p.NClients; c++ {
+		for v := 0; v < 2; v++ {
+			w := &Will{Topic: rapid.SampledFrom([]string{"w/a", "w/b", "will", "w/a/b"}).Draw(t, "wt"), QoS: byte(rapid.IntRange(0, 2).Draw(t, "wq")), Retain: rapid.IntRange(0, 3).Draw(t, "wr") == 0}
+			w.Size = rapid.SampledFrom([]int{0, 1, 5, 40, 300, 4000, limit - 200, 65535}).Draw(t, "ws")
+			if w.Size > limit-200 {
+				w.Size = limit - 200
+			}
+			if w.Size > 65535 {
+				w.Size = 65535 // the will message is a length-prefixed field
+			}
+			wills[c][v] = w
+		}
+	}
+	cleanOf := make([]bool, p.NClients)
+	for c := range cleanOf {
+		cleanOf[c] = rapid.IntRange(0, 2).Draw(t, "mostly-clean") == 0
+	}
 	nops := rapid.IntRange(4, 24).Draw(t, "nops")
 	for i := 0; i < nops; i++ {
 		c := rapid.IntRange(1, p.NClients-1).Draw(t, "c")
 		switch k := rapid.IntRange(0, 19).Draw(t, "opkind"); {
 		case k < 8:
-			op := Op{K: "connect", C: c, Clean: rapid.Bool().Draw(t, "clean")}
-			if rapid.IntRange(0, 3).Draw(t, "haswill") > 0 {
-				w := &Will{Topic: rapid.SampledFrom([]string{"w/a", "w/b", "will", "w/a/b"}).Draw(t, "wt"), QoS: byte(rapid.IntRange(0, 2).Draw(t, "wq")), Retain: rapid.IntRange(0, 3).Draw(t, "wr") == 0}
-				w.Size = rapid.SampledFrom([]int{0, 1, 5, 40, 300, 4000, limit - 200, 65535}).Draw(t, "ws")
-				if w.Size > limit-200 {
-					w.Size = limit - 200
-				}
-				if w.Size > 65535 {
-					w.Size = 65535 // the will message is a length-prefixed field
-				}
-				op.Will = w
+			op := Op{K: "connect", C: c, Clean: cleanOf[c], EOFData: rapid.IntRange(0, 3).Draw(t, "eofdata") == 0}
+			if rapid.IntRange(0, 5).Draw(t, "flipclean") == 0 {
+				op.Clean = !op.Clean
+			}
+			switch rapid.IntRange(0, 9).Draw(t, "whichwill") {
+			case 0:
+			case 1, 2, 3:
+				op.Will = wills[c][1]
+			default:
+				op.Will = wills[c][0]
 			}
 			p.Ops = append(p.Ops, op)
 		case k < 15:
-			p.Ops = append(p.Ops, Op{K: rapid.SampledFrom([]string{"disconnect", "close", "close", "garbage"}).Draw(t, "end"), C: c})
+			p.Ops = append(p.Ops, Op{K: rapid.SampledFrom([]string{"disconnect", "disconnect-close", "close", "close", "garbage"}).Draw(t, "end"), C: c})
 		case k < 17:
 			p.Ops = append(p.Ops, Op{K: "pub", C: c, Topic: rapid.SampledFrom([]string{"a", "w/a"}).Draw(t, "pt"), PQ: byte(rapid.IntRange(0, 2).Draw(t, "pq")), Size: rapid.IntRange(1, 30).Draw(t, "ps")})
 		case k < 19:
 			p.Ops = append(p.Ops, Op{K: "sub", C: c, Filters: []string{rapid.SampledFrom([]string{"w/#", "a", "will"}).Draw(t, "sf")}, QoS: []byte{byte(rapid.IntRange(0, 2).Draw(t, "sq"))}})
 		default:
-			// a fresh subscriber checks the retained store (will retain)
+			// a fresh subscription checks the retained store (will retain)
 			p.Ops = append(p.Ops, Op{K: "sub", C: 0, Filters: []string{"w/#"}, QoS: []byte{1}})
 		}
 	}
